@@ -3,6 +3,7 @@
    Models: Model/Serial.v (to_simple/from_simple/to_json wire form, __reduce__ forms), Model/ConfigKey.v (Config keys). *)
 From Coq Require Import ZArith NArith List Bool String.
 From V Require Import Model.Serial Model.ConfigKey Proofs.SerialProofs Proofs.SerialProofsB Proofs.ConfigKeyProofs Proofs.ConfigKeyProofsB.
+From V Require Import Model.SerialX Proofs.SerialProofsX Proofs.ConfigKeyProofsX.
 Import ListNotations.
 
 (* ===== Timespan: JSON, YAML and pickle forms, including the canonical empty and the unbounded ends ===== *)
@@ -198,3 +199,172 @@ Theorem names_explicit_delimiter_refuted :
   exists top l n x, names_explicit ascii_alnum 46%N top = Some l /\ In (n, x) l /\ lookup ascii_alnum top n = Err ValueErr.
 Proof. exact names_explicit_refuted_p. Qed.
 Print Assumptions names_explicit_delimiter_refuted.
+
+(* ====================================================================================================
+   Extension (wave 4)
+   ==================================================================================================== *)
+
+(* ===== minimal form {id, component} of a COMPONENT ref =====
+   The registry holds the composite (makeCompositeRef of r, as DatasetRef.from_simple's own cache does); the parent
+   storage class declares the component with r's storage class.  Then {id, component} resolves to exactly r. *)
+Theorem dec_enc_ref_minimal_component : forall u r p comp,
+  wf_dt u (f_type r) -> component_of (t_name (f_type r)) = Some comp ->
+  composite_ref u r = Some p -> aget (f_id r) (u_refs u) = Some p ->
+  (forall ps, t_psc (f_type r) = Some ps -> aget (ps ++ "." ++ comp)%string (u_compsc u) = Some (t_sc (f_type r))) ->
+  dec_ref u (enc_ref true r) = Some r.
+Proof. exact dec_enc_ref_minimal_component_p. Qed.
+Print Assumptions dec_enc_ref_minimal_component.
+
+(* both kinds of ref in one statement (non-component: the registry holds r itself) *)
+Theorem dec_enc_ref_minimal_every_ref : forall u r,
+  match component_of (t_name (f_type r)) with
+  | None => aget (f_id r) (u_refs u) = Some r
+  | Some comp => wf_dt u (f_type r) /\
+                 (exists p, composite_ref u r = Some p /\ aget (f_id r) (u_refs u) = Some p) /\
+                 (forall ps, t_psc (f_type r) = Some ps -> aget (ps ++ "." ++ comp)%string (u_compsc u) = Some (t_sc (f_type r)))
+  end -> dec_ref u (enc_ref true r) = Some r.
+Proof. exact dec_enc_ref_minimal_all_p. Qed.
+Print Assumptions dec_enc_ref_minimal_every_ref.
+
+(* a well-formed component type always has its composite (name = everything before the first ".") *)
+Theorem composite_of_component_exists : forall u t c, wf_dt u t -> component_of (t_name t) = Some c ->
+  mem (root_of (t_name t)) (u_governors u) = false ->
+  exists p, t_psc t = Some p /\
+    composite_dt u t = Some {| t_name := root_of (t_name t); t_grp := t_grp t; t_sc := p; t_psc := None; t_calib := t_calib t |}.
+Proof. exact composite_dt_wf. Qed.
+Print Assumptions composite_of_component_exists.
+
+(* non-vacuity: the component ref flat.wcs of a registered composite `flat` *)
+Definition ex_ct : dstype := {| t_name := "flat.wcs"; t_grp := ex_g; t_sc := "Wcs"; t_psc := Some "Exposure"%string; t_calib := true |}.
+Definition ex_cc : coord := {| c_grp := ex_g; c_vals := [("instrument", DStr "Cam"); ("physical_filter", DStr "r")]%string; c_recs := None |}.
+Definition ex_cr : dref := {| f_id := "id1"; f_run := "run"; f_type := ex_ct; f_coord := ex_cc |}.
+Definition ex_cp : dref := {| f_id := "id1"; f_run := "run";
+  f_type := {| t_name := "flat"; t_grp := ex_g; t_sc := "Exposure"; t_psc := None; t_calib := true |}; f_coord := ex_cc |}.
+Definition ex_cu : uctx := {| u_max := 100%Z; u_conform := u_conform ex_u; u_schema := []; u_governors := ["instrument"]%string;
+                              u_types := []; u_refs := [("id1", ex_cp)]%string; u_compsc := [("Exposure.wcs", "Wcs")]%string |}.
+Example component_ref_minimal_nonvacuous :
+  wf_dt ex_cu ex_ct /\ composite_ref ex_cu ex_cr = Some ex_cp /\ enc_ref true ex_cr = JObj [("id", JStr "id1"); ("component", JStr "wcs")]%string
+  /\ dec_ref ex_cu (enc_ref true ex_cr) = Some ex_cr.
+Proof.
+  split; [|repeat split; vm_compute; reflexivity].
+  repeat split; try reflexivity; simpl; intros; discriminate.
+Qed.
+
+(* ===== nested pickle forms: the group travels as its names, the values as a bare tuple, every record through
+   DimensionRecord.__reduce__; the class constructors rebuild the object (grp_ok: names = required + implied) ===== *)
+Theorem coord_pickle_deep_roundtrip : forall u c, wf_coord u c -> in_universe u (c_grp c) -> grp_ok (c_grp c) ->
+  rebuild_coord_deep u (reduce_coord_deep c) = Some c.
+Proof. exact coord_pickle_deep_p. Qed.
+Print Assumptions coord_pickle_deep_roundtrip.
+
+(* the unpickled data ID answers like the original for EVERY key of records (non-dimension elements such as
+   visit_detector_region included), same hasFull / hasRecords *)
+Theorem coord_pickle_keeps_every_record : forall u c, wf_coord u c -> in_universe u (c_grp c) -> grp_ok (c_grp c) ->
+  exists c', rebuild_coord_deep u (reduce_coord_deep c) = Some c' /\ has_full c' = has_full c /\
+             has_records c' = has_records c /\ forall k, record_state c' k = record_state c k.
+Proof. exact coord_pickle_keeps_records_p. Qed.
+Print Assumptions coord_pickle_keeps_every_record.
+
+(* a __reduce__ that pickles only the records of the dimension NAMES breaks it (w_c: element "x" is not a dimension) *)
+Theorem coord_pickle_trimmed_variant_refuted : exists c',
+  rebuild_coord_deep w_u (reduce_coord_trimmed w_c) = Some c' /\ record_state w_c "x" = 1%N /\ record_state c' "x" = 2%N.
+Proof. exact coord_pickle_trimmed_variant_refuted_p. Qed.
+Print Assumptions coord_pickle_trimmed_variant_refuted.
+
+Example pickle_deep_nonvacuous : wf_coord w_u w_c /\ in_universe w_u (c_grp w_c) /\ grp_ok (c_grp w_c)
+  /\ reduce_coord_deep w_c = (ClsExpanded, ["a"], [DInt 1], Some [("a", Some ("a", [("id", FInt 1)])); ("x", None)])%string.
+Proof. split; [exact (proj1 wf_coord_with_none_record)|]. repeat split. Qed.
+
+Theorem dt_pickle_deep_roundtrip : forall u t, wf_dt u t -> in_universe u (t_grp t) -> rebuild_dt_deep u (reduce_dt_deep t) = Some t.
+Proof. exact dt_pickle_deep_p. Qed.
+Print Assumptions dt_pickle_deep_roundtrip.
+
+Theorem ref_pickle_deep_roundtrip : forall u r, wf_ref u r ->
+  in_universe u (t_grp (f_type r)) -> in_universe u (c_grp (f_coord r)) -> grp_ok (c_grp (f_coord r)) ->
+  rebuild_ref_deep u (reduce_ref_deep r) = Some r.
+Proof. exact ref_pickle_deep_p. Qed.
+Print Assumptions ref_pickle_deep_roundtrip.
+
+(* ===== DimensionRecord / expanded data ID with OPAQUE region and hash payloads =====
+   region, bytes are arbitrary types; the sphgeom and hex codecs are parameters with the two round-trip facts as
+   explicit premises.  The record read back is the record itself (the region object, not its encoding). *)
+Theorem dec_enc_rec_opaque : forall (region bytes : Type) (region_encode : region -> bytes) (region_decode : bytes -> option region)
+    (hex : bytes -> string) (fromhex : string -> option bytes),
+  (forall b, fromhex (hex b) = Some b) -> (forall r, region_decode (region_encode r) = Some r) ->
+  forall u (r : prec region bytes), (0 < u_max u)%Z -> wf_rec u (wire_rec region bytes region_encode hex r) ->
+  dec_prec region bytes region_decode fromhex u (enc_prec region bytes region_encode hex r) = Some r.
+Proof. exact dec_enc_prec_p. Qed.
+Print Assumptions dec_enc_rec_opaque.
+
+Theorem dec_enc_coord_opaque : forall (region bytes : Type) (region_encode : region -> bytes) (region_decode : bytes -> option region)
+    (hex : bytes -> string) (fromhex : string -> option bytes),
+  (forall b, fromhex (hex b) = Some b) -> (forall r, region_decode (region_encode r) = Some r) ->
+  forall u (c : pcoord region bytes), wf_coord u (wire_coord region bytes region_encode hex c) ->
+  dec_pcoord region bytes region_decode fromhex u (enc_pcoord region bytes region_encode hex false c) = Some c.
+Proof. exact dec_enc_pcoord_p. Qed.
+Print Assumptions dec_enc_coord_opaque.
+
+(* the premises are satisfiable: region := bool, bytes := string, codecs that really invert; a record with a region
+   and a NULL timespan reads back as itself *)
+Definition ex_ou : uctx := {| u_max := 100%Z; u_conform := [];
+  u_schema := [("x", [("id", (TInt, false)); ("region", (TRegion, true)); ("timespan", (TTs, true))])]%string;
+  u_governors := []; u_types := []; u_refs := []; u_compsc := [] |}.
+Definition ex_or : prec bool string :=
+  {| p_def := "x"; p_fields := [("id", PInt _ _ 1%Z); ("region", PRegion _ _ true); ("timespan", PNull _ _)] |}%string.
+Example opaque_codec_nonvacuous :
+  let renc := fun b : bool => if b then "1" else "0" in
+  let rdec := fun s => if String.eqb s "1" then Some true else if String.eqb s "0" then Some false else None in
+  (forall b : string, Some ((fun x : string => x) b) = Some b) /\ (forall r, rdec (renc r) = Some r) /\
+  wf_rec ex_ou (wire_rec bool string renc (fun b => b) ex_or) /\
+  enc_prec bool string renc (fun b => b) ex_or =
+    JObj [("definition", JStr "x"); ("record", JObj [("id", JInt 1); ("region", JStr "1"); ("timespan", JNull)])]%string /\
+  dec_prec bool string rdec Some ex_ou (enc_prec bool string renc (fun b => b) ex_or) = Some ex_or.
+Proof.
+  split; [reflexivity|]. split; [intros []; reflexivity|]. split; [|split; reflexivity].
+  exists [("id", (TInt, false)); ("region", (TRegion, true)); ("timespan", (TTs, true))]%string. repeat split; try reflexivity.
+  - repeat constructor; simpl; intuition discriminate.
+  - repeat constructor.
+Qed.
+
+(* ===== names(delimiter=d): the positive theorem for an EXPLICIT delimiter =====
+   Keys may contain the delimiter (they are escaped as "\d" and un-escaped through the "\r" placeholder). *)
+Theorem name_split_explicit : forall d, d <> BS -> d <> CR -> forall alnum ks, alnum d = false -> ks <> [] ->
+  Forall (key_fine d) ks -> nonlast_ok ks = true ->
+  split_key alnum (mkname d (map KS ks)) = Ok (map KS ks).
+Proof. exact name_split_explicit_p. Qed.
+Print Assumptions name_split_explicit.
+
+(* EVERY key reported by names(delimiter=d) retrieves its value and is `in` the Config, for whole trees of nested
+   dicts and lists, every character classification and every single-character non-alphanumeric d other than "\" and
+   "\r", provided
+     keys_okb  : dict keys are strings not ending in a backslash, no duplicates           (as for names())
+     xkeys_okb : no key contains a backslash directly before d, no key contains "\r"
+     noshadowb : no reported name is itself a top-level key.
+   Each excluded shape is a refuted one: names_retrieve_refuted, names_retrieve_refuted_nonstring_key,
+   names_explicit_delimiter_refuted, names_explicit_cr_refuted, names_explicit_shadow_refuted. *)
+Theorem names_retrieve_explicit : forall alnum d top l,
+  keys_okb (CDict top) = true -> xkeys_okb d top = true -> noshadowb d top = true ->
+  d <> BS -> d <> CR -> names_explicit alnum d top = Some l ->
+  forall n x, In (n, x) l -> lookup alnum top n = Ok x /\ contains alnum top n = Ok true.
+Proof. exact names_retrieve_explicit_p. Qed.
+Print Assumptions names_retrieve_explicit.
+
+(* {"a.b": {"c": [1, {"x.y": 2}]}, ".": 0} with delimiter ".": all premises hold, 6 names, keys are escaped *)
+Example names_retrieve_explicit_nonvacuous :
+  let top := [(KS [97; 46; 98], CDict [(KS [99], CList [CInt 1%Z; CDict [(KS [120; 46; 121], CInt 2%Z)]])]); (KS [46], CInt 0%Z)] in
+  keys_okb (CDict top) = true /\ xkeys_okb 46%N top = true /\ noshadowb 46%N top = true
+  /\ names_explicit ascii_alnum 46%N top = Some (names_with 46%N top) /\ List.length (names_with 46%N top) = 6%nat
+  /\ In ([46; 97; 92; 46; 98; 46; 99; 46; 49; 46; 120; 92; 46; 121]%N, CInt 2%Z) (names_with 46%N top).
+Proof. vm_compute. repeat split; try reflexivity. right; right; right; right; left; reflexivity. Qed.
+
+Theorem names_explicit_cr_refuted :
+  exists top l n x, keys_okb (CDict top) = true /\ noshadowb 46%N top = true /\
+    names_explicit ascii_alnum 46%N top = Some l /\ In (n, x) l /\ lookup ascii_alnum top n = Err ValueErr.
+Proof. exact names_explicit_cr_refuted_p. Qed.
+Print Assumptions names_explicit_cr_refuted.
+
+Theorem names_explicit_shadow_refuted :
+  exists top l n x y, keys_okb (CDict top) = true /\ xkeys_okb 35%N top = true /\
+    names_explicit ascii_alnum 35%N top = Some l /\ In (n, x) l /\ lookup ascii_alnum top n = Ok y /\ cv_eqb x y = false.
+Proof. exact names_explicit_shadow_refuted_p. Qed.
+Print Assumptions names_explicit_shadow_refuted.
